@@ -5,16 +5,219 @@
 //! same situation.  After the 95 characters the 15 keypad characters follow (`map_ascii_numlock`).  Modes are reached through the configuration call (even sessions) or through the
 //! CapsLock / Shift-Space keys themselves (odd sessions; there every 8th character is preceded by a
 //! double CapsLock and a double Shift-Space toggle in mid-composition).
+//!
+//! After the sweep come the CROSSING-PHRASE sessions ("changing a mode never alters text already in the
+//! buffer", where the text shown is NOT the default conversion): the script teaches the dictionary phrases
+//! that overlap (`AB` + `BC` over the syllables A B C, or `AB` + `ABC` + `CD` over A B C D — the engine offers
+//! alternatives that READ differently only for overlapping phrases, contained ones are trimmed away), types the
+//! syllables, presses Tab 1..3 times at the end of the buffer (a non-default alternative is shown), brings the
+//! editor into each state (Entering; EnteringSyllable by a pending phonetic key; Selecting by Down; Highlighting
+//! by Shift-Left) and changes a mode in every way there is — CapsLock key, Shift-Space key with the toggle
+//! enabled / disabled, `set_editor_options` flipping the language, the form, both — in half of the scenarios there
+//! and back again; then a shifted letter is typed (English branch in either language mode, half / full width)
+//! and Enter commits, so that a text altered by the mode change would also be inserted into and committed.
 use crate::step::symbols;
 use crate::Op;
 use chewing::dictionary::LookupStrategy;
 use chewing::editor::keyboard::{KeyCode, KeyboardLayout, Modifiers, Qwerty};
+use chewing::editor::zhuyin_layout::{KeyBehavior, Standard, SyllableEditor};
 use chewing::editor::{CharacterForm, ConversionEngineKind, EditorOptions, LanguageMode, UserPhraseAddDirection};
+use chewing::zhuyin::Syllable;
 use std::collections::VecDeque;
+use std::sync::atomic::{AtomicU64, Ordering};
 
-pub fn n_sessions(thorough: bool) -> u64 {
+fn sweep_sessions(thorough: bool) -> u64 {
     // 2 languages x 2 forms x 2 buffers x 2 ways of reaching the mode (x 10 phonetic layouts in thorough)
     if thorough { 16 * 10 } else { 16 }
+}
+
+fn cross_sessions(thorough: bool) -> u64 {
+    // 2 phrase shapes x {syllables only the script has words for, syllables of the generated dictionaries} x
+    // auto-learn on / off (x 6 choices of syllables and start options in thorough)
+    if thorough { 8 * 6 } else { 8 }
+}
+
+pub fn n_sessions(thorough: bool) -> u64 {
+    sweep_sessions(thorough) + cross_sessions(thorough)
+}
+
+static CROSS_BUILT: AtomicU64 = AtomicU64::new(0);
+
+/// how many crossing-phrase sessions this run has scripted (the oracle insists that they bite)
+pub fn cross_sessions_built() -> u64 {
+    CROSS_BUILT.load(Ordering::Relaxed)
+}
+
+/// Standard-layout key sequences: the first eight are syllables the generated dictionaries have no word for
+/// (only what the script teaches), the others belong to the generator's pool
+const CROSS_SEQS: [&[KeyCode]; 16] = {
+    use KeyCode::*;
+    [
+        &[H, Space], &[G, Space], &[P, N7], &[Comma, N4], &[I, Space], &[B, N6], &[M, N3], &[T, J, N4],
+        &[H, K, N4], &[G, N4], &[J, U, N3], &[S, U, N3], &[C, L, N3], &[N1, Space], &[A, Space], &[Y, J, N4],
+    ]
+};
+
+fn syllable_of(seq: &[KeyCode]) -> Option<Syllable> {
+    let mut l = Standard::new();
+    let mut last = KeyBehavior::Ignore;
+    for k in seq {
+        last = l.key_press(Qwerty.map(*k));
+    }
+    if last == KeyBehavior::Commit && !l.read().is_empty() { Some(l.read()) } else { None }
+}
+
+#[derive(Clone, Copy, PartialEq)]
+enum Change {
+    CapsE,
+    CapsY,
+    CapsS,
+    CapsH,
+    ShSpOn,
+    ShSpOff,
+    SetLang,
+    SetForm,
+    SetBoth,
+    SetLangY,
+    SetFormS,
+    SetBothH,
+}
+
+/// the whole crossing-phrase session `v` as a list of operations
+fn cross_script(v: u64) -> VecDeque<Op> {
+    use KeyCode::*;
+    let plain = Modifiers::default();
+    let four = v & 1 == 1;
+    let pool_syllables = v & 2 == 2;
+    let no_auto_learn = v & 4 == 4;
+    let round = (v / 8) as usize;
+    // four distinct syllables
+    let base = if pool_syllables { 8 } else { 0 };
+    let mut seqs: Vec<&[KeyCode]> = vec![];
+    let mut syls: Vec<Syllable> = vec![];
+    for i in 0..8 {
+        let seq = CROSS_SEQS[base + (i + 3 * round) % 8];
+        if let Some(s) = syllable_of(seq) {
+            if !syls.contains(&s) && syls.len() < 4 {
+                syls.push(s);
+                seqs.push(seq);
+            }
+        }
+    }
+    let mut q: VecDeque<Op> = VecDeque::new();
+    if syls.len() < 4 {
+        return q;
+    }
+    let mut o0 = base_opts();
+    o0.disable_auto_learn_phrase = no_auto_learn;
+    o0.esc_clear_all_buffer = round & 1 == 1;
+    o0.auto_shift_cursor = round & 2 == 2;
+    if round >= 3 {
+        o0.character_form = CharacterForm::Fullwidth;
+    }
+    q.push_back(Op::SetEngine(1));
+    q.push_back(Op::SetLayout(0));
+    q.push_back(Op::SetOpts(o0));
+    for (s, w) in syls.iter().zip(["甲", "乙", "丙", "丁"]) {
+        q.push_back(Op::Learn(vec![*s], w.to_string()));
+    }
+    let n = if four { 4 } else { 3 };
+    if four {
+        // AB|CD against ABC|D
+        q.push_back(Op::Learn(syls[0..2].to_vec(), "天地".into()));
+        q.push_back(Op::Learn(syls[0..3].to_vec(), "宇宙洪".into()));
+        q.push_back(Op::Learn(syls[2..4].to_vec(), "日月".into()));
+    } else {
+        // AB|C against A|BC
+        q.push_back(Op::Learn(syls[0..2].to_vec(), "天地".into()));
+        q.push_back(Op::Learn(syls[1..3].to_vec(), "玄黃".into()));
+    }
+    let caps = Op::Key(Unknown, Modifiers::capslock());
+    let shsp = Op::Key(Space, Modifiers::shift());
+    let flipped = |lang: bool, form: bool, from: &EditorOptions| -> EditorOptions {
+        let mut o = *from;
+        if lang {
+            o.language_mode = if o.language_mode == LanguageMode::Chinese { LanguageMode::English } else { LanguageMode::Chinese };
+        }
+        if form {
+            o.character_form = if o.character_form == CharacterForm::Halfwidth { CharacterForm::Fullwidth } else { CharacterForm::Halfwidth };
+        }
+        o
+    };
+    let changes = [
+        Change::CapsE, Change::CapsY, Change::CapsS, Change::CapsH, Change::ShSpOn, Change::ShSpOff, Change::SetLang,
+        Change::SetForm, Change::SetBoth, Change::SetLangY, Change::SetFormS, Change::SetBothH,
+    ];
+    let letter = Qwerty.map_ascii(b'Z');
+    for tabs in 1..=3usize {
+        for (ci, ch) in changes.iter().enumerate() {
+            let mut o = o0;
+            o.enable_fullwidth_toggle_key = *ch != Change::ShSpOff;
+            q.push_back(Op::Clear);
+            q.push_back(Op::SetOpts(o));
+            for seq in &seqs[..n] {
+                for k in seq.iter() {
+                    q.push_back(Op::Key(*k, plain));
+                }
+            }
+            for _ in 0..tabs {
+                q.push_back(Op::Key(Tab, plain));
+            }
+            // the state in which the mode changes
+            match ch {
+                Change::CapsY | Change::SetLangY => q.push_back(Op::Key(seqs[0][0], plain)),
+                Change::CapsS | Change::SetFormS => q.push_back(Op::Key(Down, plain)),
+                Change::CapsH | Change::SetBothH => q.push_back(Op::Key(Left, Modifiers::shift())),
+                _ => {}
+            }
+            let back = (tabs + ci) % 2 == 0;
+            match ch {
+                Change::CapsE | Change::CapsY | Change::CapsS | Change::CapsH => {
+                    q.push_back(caps.clone());
+                    if back {
+                        q.push_back(caps.clone());
+                    }
+                }
+                Change::ShSpOn => {
+                    q.push_back(shsp.clone());
+                    if back {
+                        q.push_back(shsp.clone());
+                    }
+                }
+                // not a toggle while disabled: the key is an ordinary Space
+                Change::ShSpOff => q.push_back(shsp.clone()),
+                Change::SetLang | Change::SetLangY => {
+                    q.push_back(Op::SetOpts(flipped(true, false, &o)));
+                    if back {
+                        q.push_back(Op::SetOpts(o));
+                    }
+                }
+                Change::SetForm | Change::SetFormS => {
+                    q.push_back(Op::SetOpts(flipped(false, true, &o)));
+                    if back {
+                        q.push_back(Op::SetOpts(o));
+                    }
+                }
+                Change::SetBoth | Change::SetBothH => {
+                    q.push_back(Op::SetOpts(flipped(true, true, &o)));
+                    if back {
+                        q.push_back(Op::SetOpts(flipped(true, false, &o)));
+                        q.push_back(Op::SetOpts(o));
+                    }
+                }
+            }
+            // leave a list / a highlight the configuration call kept open
+            match ch {
+                Change::SetFormS => q.push_back(Op::Key(Esc, plain)),
+                Change::SetBothH => q.push_back(Op::Key(End, plain)),
+                _ => {}
+            }
+            // what was shown is what a character is inserted into and what Enter commits
+            q.push_back(Op::Key(letter.code, letter.modifiers));
+            q.push_back(Op::Key(Enter, plain));
+        }
+    }
+    q
 }
 
 pub struct Script {
@@ -28,6 +231,8 @@ pub struct Script {
     layout: u8,
     base_len: usize,
     guard: u32,
+    /// a crossing-phrase session: the whole list of operations is in `queue`
+    cross: bool,
 }
 
 pub fn base_opts() -> EditorOptions {
@@ -52,8 +257,13 @@ pub fn base_opts() -> EditorOptions {
 impl Script {
     pub fn new(sid: u64, thorough: bool) -> Script {
         let k = sid % 16;
+        let cross = sid >= sweep_sessions(thorough);
+        if cross {
+            CROSS_BUILT.fetch_add(1, Ordering::Relaxed);
+        }
         Script {
-            queue: VecDeque::new(),
+            cross,
+            queue: if cross { cross_script(sid - sweep_sessions(thorough)) } else { VecDeque::new() },
             started: false,
             i: 0,
             eng: k & 1 == 1,
@@ -70,6 +280,9 @@ impl Script {
     pub fn next(&mut self, snap: &str) -> Option<Op> {
         if let Some(op) = self.queue.pop_front() {
             return Some(op);
+        }
+        if self.cross {
+            return None;
         }
         let caps = Op::Key(KeyCode::Unknown, Modifiers::capslock());
         let shsp = Op::Key(KeyCode::Space, Modifiers::shift());
